@@ -2636,7 +2636,11 @@ impl<'a> Socket<'a> {
                 let effective_mss = local_mss.min(self.remote_mss).saturating_sub(options_len);
 
                 let offset = if self.pending_fast_retransmit {
-                    let size = effective_mss.min(self.tx_buffer.len());
+                    // A fast retransmit resends the earliest unacknowledged segment,
+                    // but must still fit in the window the remote has advertised.
+                    let size = effective_mss
+                        .min(self.tx_buffer.len())
+                        .min(self.remote_win_len);
                     repr.seq_number = self.local_seq_no;
                     repr.payload = self.tx_buffer.get_allocated(0, size);
 
